@@ -45,9 +45,18 @@ package ctrlflow
 //@ func applySplitting
 //@   property C11
 //@   requires ssaFunc != nil
+//@   spec ssa.smt2
+//@   requires @phis-lead-their-block: forall b *ssa.BasicBlock :: forall j int :: 0 <= j && j < len(b.Instrs) ==> (dyntypeis(b.Instrs[j], *ssa.Phi) <==> j < spec.PhiCount(b))
+//@   requires forall b *ssa.BasicBlock :: spec.PhiCount(b) >= 0
+//@   ensures @phis-stay-with-their-predecessors: r0 ==> forall k int :: 1 <= k && k < len(newBlock.Instrs) ==> !dyntypeis(newBlock.Instrs[k], *ssa.Phi)
+//@   ensures @second-half-does-not-start-with-a-phi: r0 ==> !dyntypeis(secondPart[0], *ssa.Phi)
 //@   ensures @first-half-jumps-only-to-the-second-half: r0 ==> len(targetBlock.Succs) == 1 && targetBlock.Succs[0] == newBlock
 //@   ensures @second-half-is-registered-last: r0 ==> len(ssaFunc.Blocks) == old(len(ssaFunc.Blocks)) + 1 && ssaFunc.Blocks[len(ssaFunc.Blocks)-1] == newBlock
-//@   loop 2
+//@   loop 1
+//@     invariant forall k int :: 0 <= k && k < _i ==> dyntypeis(targetBlock.Instrs[k], *ssa.Phi)
+//@     invariant minSplitIdx == ite(_i == 0, 1, _i)
+//@     invariant _i <= spec.PhiCount(targetBlock)
+//@   loop 3
 //@     invariant @predecessor-lists-of-the-original-successors-are-rewritten: ref(targetBlock.Succs) == ref(newBlock.Succs) && off(targetBlock.Succs) == off(newBlock.Succs) && len(targetBlock.Succs) == len(newBlock.Succs)
 //@ end
 
